@@ -176,6 +176,10 @@ LexEntry:
                                 // Store line and column for this non-generated token.
                                 expansions.push_back(std::make_pair(lineno, column));
                             }
+                            else {
+                                // Neither a count nor a position: skip it.
+                                yylex(&tk);
+                            }
                         }
                     }
                     else if (!strcmp(tk.identifier_->c_str(), kEnd)) {
